@@ -319,6 +319,82 @@ func syncProto(repo string) (string, string, error) {
 		return true
 	})
 
+	// structural facts 5-8 (round 2): where each stack takes its Options / tls.Config from
+	//   clone_own_options      : Transport.Clone builds the clone's Options with t.Options.Clone() and hands the
+	//                            clone's http2 transport a pointer to the CLONE's Options (&tt.Options)
+	//   t3_shares_options      : EnableHTTP3 hands the http3 round tripper a pointer to the transport's Options
+	//   h3_dial_config_per_dial: http3 dial derives its tls.Config from r.TLSClientConfig on every call
+	//                            (assignment at the top level of dial, not inside a closure such as once.Do)
+	//   h2_config_per_dial     : http2 newTLSConfig clones t.TLSClientConfig on every call (same rule)
+	cloneOwn, cloneOpts := false, false
+	ast.Inspect(fClone, func(x ast.Node) bool {
+		kv, ok := x.(*ast.KeyValueExpr)
+		if !ok {
+			return true
+		}
+		if id, ok := kv.Key.(*ast.Ident); !ok || id.Name != "Options" {
+			return true
+		}
+		if u, ok := kv.Value.(*ast.UnaryExpr); ok && u.Op == token.AND && isSel(u.X, "tt", "Options") {
+			cloneOwn = true
+		}
+		if c, ok := kv.Value.(*ast.CallExpr); ok {
+			if se, ok := c.Fun.(*ast.SelectorExpr); ok && se.Sel.Name == "Clone" && isSel(se.X, "t", "Options") {
+				cloneOpts = true
+			}
+		}
+		return true
+	})
+	fE3 := funcDecl(tr, "Transport", "EnableHTTP3")
+	if fE3 == nil {
+		return "", "", fmt.Errorf("transport.go: EnableHTTP3 not found")
+	}
+	t3Shares := false
+	ast.Inspect(fE3, func(x ast.Node) bool {
+		if kv, ok := x.(*ast.KeyValueExpr); ok {
+			if id, ok := kv.Key.(*ast.Ident); ok && id.Name == "Options" {
+				if u, ok := kv.Value.(*ast.UnaryExpr); ok && u.Op == token.AND && isSel(u.X, "t", "Options") {
+					t3Shares = true
+				}
+			}
+		}
+		return true
+	})
+	// X.TLSClientConfig read by an assignment outside any function literal
+	clonesPerCall := func(fd *ast.FuncDecl, recv string) bool {
+		hit := false
+		ast.Inspect(fd.Body, func(x ast.Node) bool {
+			if _, ok := x.(*ast.FuncLit); ok {
+				return false
+			}
+			if as, ok := x.(*ast.AssignStmt); ok {
+				for _, rhs := range as.Rhs {
+					ast.Inspect(rhs, func(y ast.Node) bool {
+						if _, ok := y.(*ast.FuncLit); ok {
+							return false
+						}
+						if isSelExpr(y, recv, "TLSClientConfig") {
+							hit = true
+						}
+						return true
+					})
+				}
+			}
+			return true
+		})
+		return hit
+	}
+	h3PerDial := clonesPerCall(fDial, "r")
+	h2tr, err := parseGo(repo, "internal/http2/transport.go")
+	if err != nil {
+		return "", "", err
+	}
+	fNew := funcDecl(h2tr, "Transport", "newTLSConfig")
+	if fNew == nil {
+		return "", "", fmt.Errorf("internal/http2/transport.go: newTLSConfig not found")
+	}
+	h2PerDial := clonesPerCall(fNew, "t")
+
 	var sb strings.Builder
 	sb.WriteString("(* GENERATED by harness/c12 gosync from transport.go, client.go, internal/http2/http2.go,\n   internal/http3/server.go, internal/http3/roundtrip.go - do not edit *)\n")
 	sb.WriteString("From ReqV Require Import Lib.Bytes.\nImport ListNotations.\n\n")
@@ -336,6 +412,9 @@ func syncProto(repo string) (string, string, error) {
 	fmt.Fprintf(&sb, "(* Transport.roundTrip: checkAltSvc only runs when forceHttpVersion == \"\" *)\nDefinition altsvc_only_unforced : bool := %s.\n", hk.CoqBool(guarded))
 	fmt.Fprintf(&sb, "(* Transport.Clone copies t2.AllowHTTP *)\nDefinition clone_copies_allow_http : bool := %s.\n", hk.CoqBool(copiesAllow))
 	fmt.Fprintf(&sb, "(* Transport.CloseIdleConnections also closes HTTP/3 connections *)\nDefinition closeidle_closes_h3 : bool := %s.\n", hk.CoqBool(closesH3))
+	fmt.Fprintf(&sb, "(* Transport.Clone: Options: t.Options.Clone() and the clone's http2 transport gets &tt.Options *)\nDefinition clone_own_options : bool := %s.\n", hk.CoqBool(cloneOwn && cloneOpts))
+	fmt.Fprintf(&sb, "(* EnableHTTP3: http3.RoundTripper{Options: &t.Options} *)\nDefinition t3_shares_options : bool := %s.\n", hk.CoqBool(t3Shares))
+	fmt.Fprintf(&sb, "(* http3 dial / http2 newTLSConfig derive the tls.Config from the client's on every call *)\nDefinition h3_dial_config_per_dial : bool := %s.\nDefinition h2_config_per_dial : bool := %s.\n", hk.CoqBool(h3PerDial), hk.CoqBool(h2PerDial))
 	return "ProtoTables.v", sb.String(), nil
 }
 
